@@ -543,9 +543,10 @@ func main() {
 	}
 	rng := vh.NewRng(a.Seed)
 	rep := vh.NewReport(a, "PRNG programs: 1..4 functions pNf0..pNf3 (fi calls only fj, j>i: call depth <= 4, +1 for closures / closures called back from a compiled function), "+
-		"bodies of 2..25 statements from {emit, arithmetic, call, if/else, for (1..3 iterations, nesting <= 2), switch, block with local, closure definition+call, apply(closure), early return, \"break\" / _ = \"break\" breakpoints with probability 0/3/6/10%}; "+
+		"bodies of 2..25 statements from {emit, arithmetic, call, if/else, for (1..3 iterations, nesting <= 2), switch, block with local, closure definition+call, apply(closure), early return (also `return v + callee(..)`), \"break\" / _ = \"break\" breakpoints with probability 0/3/6/10%, defer statements (1/2 of the functions start with 1-2 defers; defers also inside blocks/loops/branches: compiled function, interpreted named function with argument, closure with emits / calls / breakpoints), 1/6 of the functions panic conditionally and recover in a deferred closure}; "+
 		"1/4 of the non-root functions have no result and fall off the end of their body, 1/5 of the programs are started as a top-level statement list (call depth 0; there `finish` = continue, so the documented-rule oracle is applied only to scripts without finish); programs whose single-step trace exceeds 1500 statements are discarded; "+
-		"per program 8 scripts over {step,next,finish,continue} (4 of shape (s|n|f)* c*, 3 unrestricted, 1 unrestricted started with ir.Eval instead of ir.Debug), script exhausted => continue; "+
+		"per program 14 scripts over {step,next,finish,continue}: 8 PRNG scripts through the stock fast/debug.Debugger (4 of shape (s|n|f)* c*, 3 unrestricted, 1 unrestricted started with ir.Eval instead of ir.Debug), 2 PRNG scripts answered by a raw fast.Debugger, 4 trace-directed scripts (single-step to a statement of the R1 trace - half of them a statement directly followed by a statement without source position, i.e. a return whose epilogue precedes deferred calls - then next/finish/step tail; 3 stock, 1 raw); script exhausted => continue; "+
+		"every callback of the stock layer is passed to debug.Debugger.At/Breakpoint: a prompt consumes a command and is a stop, a return without prompt is a skipped callback; oracles: transparency, every breakpoint prompts, after continue only breakpoints, after step the next statement (with position) of the activation/callee prompts, EVERY non-breakpoint stop has call depth below the depth requested by the previous answer (all scripts), documented rule on the statements with position (scripts without resume); "+
 		"one evaluated case = one (program, script) run; non-trivial when the run had >= 2 debugger callbacks and the trace has >= 2 call depths; distinct by SHA-256 of program text + script")
 	nProg := 70
 	perShard := 40
@@ -648,6 +649,38 @@ func main() {
 			scr{true, genScript(rng, "free", 10+ln()), false}, scr{true, genScript(rng, "freec", 10+ln()), false}, scr{true, "c" + genScript(rng, "free", 10+ln()), false},
 			scr{false, genScript(rng, "free", 10+ln()), false},
 			scr{true, genScript(rng, "steps", ln()), true}, scr{true, genScript(rng, "free", 10+ln()), true})
+		// trace-directed scripts: single-step up to a chosen statement of the trace, then a random tail without continue.
+		// Half of the targets are statements directly followed by a statement without source position (a `return expr`
+		// whose epilogue precedes the deferred calls), the others uniform over the trace (e.g. inside the callee of a return
+		// expression: `finish` then comes back to the epilogue)
+		var beforeSynth []int
+		for j := 0; j+1 < len(tr); j++ {
+			if tr[j].Pos != 0 && tr[j+1].Pos == 0 {
+				beforeSynth = append(beforeSynth, j)
+			}
+		}
+		for k := 0; k < 4; k++ {
+			j := rng.Intn(len(tr))
+			if len(beforeSynth) > 0 && k%2 == 0 {
+				j = beforeSynth[rng.Intn(len(beforeSynth))]
+			}
+			raw := k == 3
+			n := 0 // callbacks answered before statement j when every answer is `step`
+			for _, t := range tr[:j] {
+				if t.Pos != 0 || raw {
+					n++
+				}
+				if t.Bp {
+					n++
+				}
+			}
+			tail := genScript(rng, []string{"nexts", "steps"}[rng.Intn(2)], 1+rng.Intn(6))
+			if rng.Bool() {
+				tail = string("nf"[rng.Intn(2)]) + tail
+			}
+			scripts = append(scripts, scr{true, strings.Repeat("s", n) + tail, raw})
+			rep.Dist("script:trace-directed")
+		}
 		var cscripts []string
 		for _, sc := range scripts {
 			in := caseIn{p, sc.debug, sc.s, sc.raw}
@@ -719,6 +752,23 @@ func main() {
 						ok = false
 						break
 					}
+				}
+			}
+			if ok {
+				// every At stop is justified by the command that answered the previous stop (by the start mode for the first
+				// one): its call depth is below the requested depth - step: any, next: same or shallower, finish: shallower,
+				// continue: none.  Holds for EVERY script (finding C19-C only loses stops, it never adds one)
+				D0 := 0
+				if sc.debug {
+					D0 = maxInt
+				}
+				for k, s := range st {
+					if !s.Bp && !(tr[s.Idx].Depth < D0) {
+						fail(key, fmt.Sprintf("stop %d (statement %d, call depth %d) is not justified by the preceding command: requested depth %d", k, s.Idx, tr[s.Idx].Depth, D0), in, st, nil)
+						ok = false
+						break
+					}
+					D0 = opDepth(stopRecs[k].Cmd, tr[s.Idx].Depth)
 				}
 			}
 			if ok && noResume(sc.s) && sc.debug && !(p.Top && strings.Contains(sc.s, "f")) {
